@@ -2121,6 +2121,8 @@ class VM:
             count = index_arg(args, 0)
             if count < 0 or count == float("inf"):
                 raise JSRangeError("Invalid count value")
+            if len(s) * count > 2**28:
+                raise JSRangeError("Invalid string length")
             return s * count
 
         def startsWith(*args):
